@@ -345,18 +345,33 @@ def check_finish(tf, fname, res):
                 # pair relation
                 pm = [m for m in nodes(a["body"], "Match") if m["expr"]["k"] == "Tuple"]
                 pairs = set()
+                fused_pop = False
                 for m2 in pm:
+                    # `match (stack.pop(), current)`: the popped Option is matched together with the closer
+                    e0 = m2["expr"]["elems"][0] if m2["expr"].get("elems") else None
+                    fused = e0 is not None and e0["k"] == "MethodCall" and e0["method"] == "pop"
+                    others_return = True
+                    any_guard = any(a2_["guard"] is not None for a2_ in m2["arms"])
                     for a2 in m2["arms"]:
                         cases = a2["pat"]["cases"] if a2["pat"]["k"] == "POr" else [a2["pat"]]
+                        is_pair_arm = False
                         for cse in cases:
-                            if cse["k"] == "PTuple" and len(cse["elems"]) == 2 and all(x["k"] == "PLit" for x in cse["elems"]):
+                            if cse["k"] == "PTuple" and len(cse["elems"]) == 2 and all(x["k"] == "PLit" for x in cse["elems"]) and not fused:
                                 if not nodes(a2["body"], "Return"):
                                     pairs.add((cse["elems"][0]["lit"]["v"], cse["elems"][1]["lit"]["v"]))
+                            if fused and cse["k"] == "PTuple" and len(cse["elems"]) == 2 and cse["elems"][1]["k"] == "PLit" and cse["elems"][0]["k"] == "PTupleStruct" and cse["elems"][0]["path"]["segs"] == ["Some"] and len(cse["elems"][0]["elems"]) == 1 and cse["elems"][0]["elems"][0]["k"] == "PLit":
+                                if not nodes(a2["body"], "Return"):
+                                    pairs.add((cse["elems"][0]["elems"][0]["lit"]["v"], cse["elems"][1]["lit"]["v"]))
+                                    is_pair_arm = True
+                        if fused and not is_pair_arm and not nodes(a2["body"], "Return"):
+                            others_return = False
+                    if fused and others_return and not any_guard:
+                        fused_pop = True  # every other case, the empty stack (None) included, leaves with the error
                 res.inst("R-C08-table", "finish|pairs", where(a), True, "accepted pairs %s" % sorted(pairs))
                 if pairs != {("(", ")"), ("[", "]"), ("{", "}")}:
                     res.violate("R-C08-table", "finish|pairs", where(a), "bracket kinds must match pairwise ( ) [ ] { }; the scan accepts %s" % sorted(pairs))
                 # pop on empty stack is an error
-                if not any(st.get("else") is not None for st in nodes(a["body"], "Let")):
+                if not fused_pop and not any(st.get("else") is not None for st in nodes(a["body"], "Let")):
                     res.violate("R-C08-table", "finish|pop-empty", where(a), "a closing bracket on an empty stack must be an error (let … else)")
         res.inst("R-C08-table", "finish|bracket-sets", where(loop), True, "openers %s closers %s" % (sorted(openers), sorted(closers)))
         if openers != set("([{") or closers != set(")]}"):
